@@ -212,6 +212,74 @@ def handler(payload):
                     r = guarded(one, seconds=30)
                     out["responses"].append(r[1] if r[0] == "ok" else err(r))
             results.append(out)
+        elif op == "history":
+            # operation sequences on ONE object: export twice, re-sign + export, change public members + export;
+            # `c` is the first configuration, c["changed"] the configuration a fresh object is built from for comparison
+            def new_dc(cc):
+                if cc.get("v2"):
+                    cfg2 = {"family": cc["family"], "revision": cc.get("revision", "latest"), "cc_socu": cc["socu"], "uuid": "0x" + cc["uuid"],
+                            "fuse_version": cc.get("fuse_version", 0), "public_key_0": os.path.join(K, cc["dck"] + ".pub"),
+                            "signing_key_0": os.path.join(K, cc["rotk"] + ".pem")}
+                    return DebugCredentialEdgeLockEnclaveV2.create_from_yaml_config(cfg2)
+                cfg = {"family": cc["family"], "revision": cc.get("revision", "latest"), "uuid": cc["uuid"], "cc_socu": cc["socu"],
+                       "cc_vu": cc["vu"], "cc_beacon": cc["beacon"], "rot_meta": [os.path.join(K, k + ".pub") for k in cc["keys"]],
+                       "rot_id": cc["rot_id"], "rotk": os.path.join(K, cc["rotk"] + ".pem"), "dck": os.path.join(K, cc["dck"] + ".pub")}
+                if "flag_ca" in cc:
+                    cfg["flag_ca"] = bool(cc["flag_ca"])
+                return DebugCredentialCertificate.create_from_yaml_config(cfg)
+
+            def run_history():
+                o = {"ops": []}
+                a = new_dc(c)
+                a.sign()
+                o["e1"] = a.export().hex()
+                o["ops"] += ["A = create_from_yaml_config(cfg1)", "A.sign()", "e1 = A.export()"]
+                o["e1b"] = a.export().hex()
+                o["ops"].append("e1b = A.export()")
+                a.sign()
+                o["e2"] = a.export().hex()
+                o["ops"] += ["A.sign()", "e2 = A.export()"]
+                ch = c["changed"]
+                b = new_dc(ch)
+                b.sign()
+                o["fresh"] = b.export().hex()
+                if c.get("v2"):
+                    a.socu = ch["socu"]                      # public property of the container-v2 credential
+                    o["ops"].append("A.socu = cfg2.cc_socu")
+                else:
+                    a.uuid, a.cc_socu, a.cc_vu, a.cc_beacon = b.uuid, b.cc_socu, b.cc_vu, b.cc_beacon
+                    a.rot_meta = b.rot_meta                  # other number of RoT keys / other CA flag: length- and layout-affecting
+                    o["ops"].append("A.uuid, A.cc_socu, A.cc_vu, A.cc_beacon, A.rot_meta = (those of a fresh object built from cfg2)")
+                a.sign()
+                o["changed"] = a.export().hex()
+                o["ops"] += ["A.sign()", "changed = A.export()", "fresh = create_from_yaml_config(cfg2); sign(); export()"]
+                if c.get("requests"):
+                    rq1, rq2 = c["requests"]
+
+                    def dac_of(rq, dcobj):
+                        return DebugAuthenticationChallenge(
+                            version=dcobj.version, socc=dcobj.socc, uuid=bytes.fromhex(rq["uuid"]), rotid_rkh_revocation=0,
+                            rotid_rkth_hash=bytes(32), cc_soc_pinned=0, cc_soc_default=0, cc_vu=0, challenge=bytes.fromhex(rq["challenge"]))
+                    cert = os.path.join(payload["tmpdir"], "dch_%d.bin" % os.getpid())
+                    with open(cert, "wb") as fh:
+                        fh.write(bytes.fromhex(o["fresh"]))
+                    cfg = {"family": c["family"], "revision": c.get("revision", "latest"), "certificate": cert, "beacon": rq1["beacon"],
+                           "dck_private_key": os.path.join(K, c["dck_priv"] + ".pem")}
+                    d1 = DebugAuthenticateResponse.load_from_config(dict(cfg), dac_of(rq1, b))
+                    o["r1"] = d1.export().hex()
+                    o["r1b"] = d1.export().hex()
+                    o["ops"] += ["R = DebugAuthenticateResponse.load_from_config(cfg, dac1)", "r1 = R.export()", "r1b = R.export()"]
+                    d1.dac = dac_of(rq2, b)
+                    d1.auth_beacon = rq2["beacon"]
+                    o["r_changed"] = d1.export().hex()
+                    o["ops"] += ["R.dac = dac2; R.auth_beacon = beacon2", "r_changed = R.export()"]
+                    cfg["beacon"] = rq2["beacon"]
+                    d2 = DebugAuthenticateResponse.load_from_config(dict(cfg), dac_of(rq2, b))
+                    o["r_fresh"] = d2.export().hex()
+                    o["ops"].append("r_fresh = DebugAuthenticateResponse.load_from_config(cfg[beacon2], dac2).export()")
+                return o
+            r = guarded(run_history, seconds=60)
+            results.append({"history": r[1] if r[0] == "ok" else err(r)})
         elif op == "parse":
             data = bytes.fromhex(c["data"])
             p = guarded(lambda: DebugCredentialCertificate.parse(data), seconds=30)
